@@ -143,7 +143,7 @@ def check(ctx):
                 break
             if ctx.ob("R-METRIC", f"distance matrix located [{cfg}]", dm is not None, "", site, cfg):
                 t = dm.term
-                ok_fill = t.op == "fill_diagonal" and repr(t.args[1]) == "'inf'"
+                ok_fill = (t.op == "fill_diagonal" and repr(t.args[1]) == "'inf'") or (t.op == "store" and len(t.args) == 3 and getattr(t.args[1], "op", None) == "diagidx" and repr(t.args[2]) == "'inf'")
                 ctx.ob("NF-GABRIEL", f"diagonal of the distance matrix set to inf before any use [{cfg}]", ok_fill, repr(t)[:80], site, cfg)
                 inner = t.args[0] if ok_fill else t
                 I2, s2 = ctx.interp(), State()
